@@ -14,7 +14,8 @@
 (*            hOf |-> Seq (index id+1) HeightFromHash,                     *)
 (*            byHash |-> Seq (index id+1) id returned by FetchHeader,      *)
 (*            anc |-> FetchHeaderAncestors(tipHeight, tip),                *)
-(*            loc |-> LatestBlockLocator]                                  *)
+(*            loc |-> LatestBlockLocator,                                  *)
+(*            locOf |-> Seq (index id+1) BlockLocatorFromHash(hash of id)] *)
 (*   obs.F = [tip, byH, byHash, anc] for the filter-header store, filter   *)
 (*            headers being named by the id of the block they belong to.   *)
 (*   obs.up = 1 if both stores are open, 0 if opening failed.              *)
@@ -38,7 +39,9 @@ ExpB(b, N, H) ==
    hOf    |-> [i \in 1..N |-> IF PosOf(b, i-1) > 0 THEN PosOf(b, i-1) - 1 ELSE NF],
    byHash |-> [i \in 1..N |-> IF PosOf(b, i-1) > 0 THEN i-1 ELSE NF],
    anc    |-> b,
-   loc    |-> Rev(b)]
+   loc    |-> Rev(b),
+   locOf  |-> [i \in 1..N |-> IF PosOf(b, i-1) > 0 THEN Rev(SubSeq(b, 1, PosOf(b, i-1)))
+                              ELSE <<i-1>>]]   \* not in the list: the locator is just the hash asked for
 
 \* What plain lists (b, f) answer to every filter-store read.  f is a prefix
 \* of b by construction of the operations.
@@ -69,6 +72,15 @@ After(a, act) ==
     [] act.op = "RollbackF" -> [B |-> a.B, F |-> SubSeq(a.F, 1, Len(a.F) - 1)]
     [] OTHER                -> Lists(a)
 
+\* Reopening with a header state assertion that contradicts the stored filter
+\* header (act.n = 2) deliberately resets the FILTER store to genesis
+\* (neutrino.Config.AssertFilterHeader).  The property does not speak about
+\* that option, so either outcome is taken as the new filter list; the block
+\* store must not change.
+ResetSeen(act, o2) ==
+  /\ act.op = "Reopen" /\ act.n = 2 /\ act.res = "ok"
+  /\ o2.up = 1 /\ o2.F.tip = <<0, 0>>
+
 AbsNext(a, act, o2) ==
   CASE act.op = "Recover" ->
          LET m == {x \in a.alt : Matches(o2, x)}
@@ -76,6 +88,7 @@ AbsNext(a, act, o2) ==
          IN  [B |-> c.B, F |-> c.F, alt |-> {}, crashed |-> TRUE]
     [] act.res = "crash" ->
          [a EXCEPT !.alt = {Lists(a), After(a, act)}, !.crashed = TRUE]
+    [] ResetSeen(act, o2) -> [a EXCEPT !.F = <<0>>]
     [] act.res = "ok" ->
          LET c == After(a, act)
          IN  [a EXCEPT !.B = c.B, !.F = c.F]
@@ -98,8 +111,9 @@ Viol(a, o, act, a2, o2) ==
   ELSE (IF ~Matches(o2, a2)
         THEN {IF a.crashed THEN "PostCrashRefinement" ELSE "ListRefinement"}
         ELSE {})
-       \cup (IF act.op = "Reopen" /\ o2 # o THEN {"ReopenPreserves"} ELSE {})
-       \cup (IF IsAppend(act) /\ act.res = "err" /\ o2 # o
+       \cup (IF act.op = "Reopen" /\ (o2.up # o.up \/ o2.B # o.B \/ (act.n # 2 /\ o2.F # o.F))
+             THEN {"ReopenPreserves"} ELSE {})
+       \cup (IF IsAppend(act) /\ act.res = "err" /\ (o2.up # o.up \/ o2.B # o.B \/ o2.F # o.F)
              THEN {"FailedAppendLeavesStore"} ELSE {})
 
 EndViol(a, o) == {}
